@@ -122,7 +122,7 @@ PROPERTIES = {
                        "variable.evaluate / reduce / equation_bounds,is_tautology,is_contradiction / the connective constructors / "
                        "to_short,to_json is executed symbolically and a heap snapshot shows that no pre-existing object, list or "
                        "module-level container is written. bounded stand-ins: deep snapshots around sequences of public calls "
-                       "(all public methods incl. evaluate/to_ge_polyhedron/solve), two-configurator cache scenario ADDED: frame obligations for StingyConfigurator.add and default_prios; stand-in rt.c09_configurator_purity (sequences of configurator calls incl. add/select). ADDED: frame obligations around the end-to-end shape runs (evaluate, evaluate_propositions, negate, reduce, JSON round trip, errors, to_ge_polyhedron glue).",
+                       "(all public methods incl. evaluate/to_ge_polyhedron/solve), two-configurator cache scenario ADDED: frame obligations for StingyConfigurator.add and default_prios; stand-in rt.c09_configurator_purity (sequences of configurator calls incl. add/select). ADDED: frame obligations around the end-to-end shape runs (evaluate, evaluate_propositions, negate, reduce, JSON round trip, errors, to_ge_polyhedron glue). ADDED: frame obligations around the readers/writers and solver routes (StingyConfigurator / cc.Any / cc.Xor to_json+from_json, plog.from_json on hand-written records, Imply.from_cicJE, default_prios/ge_polyhedron of a concrete configurator, the built-in solve route, reduced transport); the snapshot covers module-level and class-level containers AND mutable default arguments of the repository's functions; the stand-in probes OTHER objects (readers, constructors) after every call against their answers at process start.",
     },
     "C10": {
         "harness_modules": ["contracts.c10", "contracts.c10shape"],
